@@ -3,6 +3,7 @@
 setup:
 	@java -version 2>&1 | head -1
 	@test -f /opt/veriftools/tla/tla2tools.jar || (echo "tla2tools.jar missing"; exit 1)
+	@which apalache-mc >/dev/null || (echo "apalache-mc missing"; exit 1)
 	@/venv/bin/python -c "import numpy, scipy; print('numpy', numpy.__version__, 'scipy', scipy.__version__)"
 	@mkdir -p work evidence replays
 	@/venv/bin/python -c "import sys; sys.path.insert(0,'/repo'); import mininec.mininec; print('mininec import ok')"
